@@ -55,6 +55,21 @@ Theorem C01_output_axes_are_declared : forall n sl,
 Proof. exact out_inds_eq. Qed.
 Print Assumptions C01_output_axes_are_declared.
 
+
+(* (6) the same for EVERY admissible assignment of per-node axis orders -- any permutation
+       of each internal node's legs, which is what sort_contraction_indices produces *)
+Theorem C01_program_any_axis_orders : forall n sl arr e0 io l r,
+  wf_net n -> full_tree n (Node l r) -> admissible n sl io l -> admissible n sl io r ->
+  forall e, agree_removed sl e0 e ->
+  run_root_g n sl arr e0 io (Node l r) (map e (out_inds n sl)) = einsum_spec n sl arr e.
+Proof. exact run_root_g_correct. Qed.
+Print Assumptions C01_program_any_axis_orders.
+
+Theorem C01_default_orders_admissible : forall n sl t, inrange n (leaves t) ->
+  admissible n sl (inds_sub n sl) t.
+Proof. exact default_admissible. Qed.
+Print Assumptions C01_default_orders_admissible.
+
 (* non-vacuity: 'aab,bcd,cd,->da' style network with a repeated index, a hyper index
    (c on three tensors incl. output? no: d), a scalar and an outer product *)
 Local Open Scope nat_scope.
